@@ -52,17 +52,17 @@ def apply(ctx, W):
     rules.loop_spec(ctx, ss, u, lp, tags=("C10",), invariants=common, ensures=[("all_resolved(&self.type_registry)", ("C10",))])
     rules.for_to_index_loop(ctx, ss, u, inner, seq="to_resolve", ivar="i_r")
     rules.index_loop_spec(ctx, ss, u, inner, tags=("C10",), invariants=common)
-    # `self.type_registry.get_mut(p).unwrap().state = V;`  (HashMap::get_mut is outside Verus' subset)
+    # `self.type_registry.get_mut(p).unwrap().state = V;` stays as written: TypeRegistry::get_mut is under contract
+    # (b10_layout) on the std contract of HashMap::get_mut; only a ghost assertion names the resulting map
     gm = ss.method_calls(b, "get_mut")
     if len(gm) != 1:
         raise rules.WeaveError("SemanticState::build: expected one get_mut call")
     stmt = ss.stmt_of(gm[0])
-    t = " ".join(ss.text(stmt["span"]).split())
-    import re
-    m = re.match(r"^self\.type_registry\.get_mut\((\w+)\)\.unwrap\(\)\.state = (.+);$", t)
-    if not m:
-        raise rules.WeaveError("SemanticState::build: state assignment has an unexpected shape: " + t)
-    ss.replace(stmt["span"][0], stmt["span"][1], "crate::verif_prelude::v_set_state(&mut self.type_registry, %s, %s);" % (m.group(1), m.group(2)), "W9-R-std-get-mut-assign")
+    ghost(ctx, ss, u, before(ss, stmt), "let ghost m0__ = self.type_registry.types@;")
+    ghost(ctx, ss, u, after(ss, stmt), """proof {
+                    assert(m0__.contains_key(*resolvee_path));
+                    assert(self.type_registry.types@ =~= m0__.insert(*resolvee_path, ItemDefinition { state: self.type_registry.types@[*resolvee_path].state, ..m0__[*resolvee_path] }));
+                }""")
     ghost(ctx, ss, u, body_start(inner), "let ghost st0 = *self;")
 
     ghost(ctx, ss, u, after(ss, ss.let(b, "to_resolve")), """proof {
